@@ -46,6 +46,7 @@ THEOREMS = [
     "Cotengra.C07.cache_sound",
     "Cotengra.C07.never_forbidden",
     "Cotengra.C07.best_meets_targets",
+    "Cotengra.C07.search_sound",
 ]
 TRUSTED = [
     "Lean 4.33 kernel; axioms within {propext, Classical.choice, Quot.sound}",
@@ -80,8 +81,9 @@ def gen_case(rng, tier):
     pre = []
     for ix in rng.sample(inds, min(rng.choice([0, 0, 0, 1, 1, 2]), len(inds))):
         pre.append([ix, rng.randrange(net.sizes[ix]) if rng.random() < 0.3 else None])
-    kinds = rng.choice([["size"], ["size"], ["slices"], ["overhead"], ["size", "overhead"],
-                        ["size", "slices"], ["slices", "overhead"], ["size", "slices", "overhead"]])
+    kinds = rng.choice([["size"], ["size"], ["size"], ["slices"], ["slices"], ["overhead"], ["overhead"],
+                        ["size", "overhead"], ["size", "slices"], ["slices", "overhead"],
+                        ["size", "slices", "overhead"]])
     tg = {}
     spec = refimpl.spec_costs(net, tree, [ix for ix, _ in pre], [])
     total = 1
@@ -95,7 +97,7 @@ def gen_case(rng, tier):
             rng.randint(1, max(1, min(total, 64)))
     if "overhead" in kinds:
         q = rng.choice([1, 2, 4, 8])
-        tg["overhead"] = [rng.randint(max(1, q // 2), 4 * q), q]
+        tg["overhead"] = [rng.randint(max(1, q // 2), rng.choice([2, 4, 16]) * q), q]
     return {"net": net.json(), "tree": tree, "pre": pre, "targets": tg,
             "allow_outer": rng.choice([True, True, False, False, "only"]),
             "minimize": rng.choice(OBJECTIVES), "temperature": rng.choice([0.01, 0.01, 0.3, 2.0]),
@@ -410,7 +412,7 @@ def run(ctx, drv):
         obj = json.load(open(f))
         check_case(ctx, drv, obj.get("replay", obj)["case"])
         ctx.count("corpus")
-    ncases = 500 if ctx.tier == "quick" else 8000
+    ncases = 4000 if ctx.tier == "quick" else 60000
     for _ in range(ncases):
         if ctx.time_left() < 5:
             break
